@@ -13,7 +13,7 @@ import ast
 
 from ..engine import rule, run_property
 from ..model import Undecided
-from ..cfg import same, dotted, call_name, is_call, simple_name, unparse, const_value, contains, enclosing, norm_cmp
+from ..cfg import cexpr, same, dotted, call_name, is_call, simple_name, unparse, const_value, contains, enclosing, norm_cmp
 from ..flow import Defs, depends, affine, try_const
 from ..decide import table, ret_kind
 from ..axis import axis_reports
@@ -407,6 +407,34 @@ def c03h(ctx):
                 ok = contains(k.value, lambda y: isinstance(y, ast.Constant) and y.value == k.arg)
                 ctx.check(ok, 'GridConfiguration.tile_grid:%s-from-conf' % k.arg, 'tile_grid(%s=...) is read from the grid configuration key %r' % (k.arg, k.arg), ld, x,
                           fail='tile_grid(%s=%s) is not the configured %r' % (k.arg, unparse(k.value)[:40], k.arg))
+            if k.arg in ('stretch_factor', 'max_shrink_factor'):
+                # the grid's own option first, else the globals of the configuration that is being loaded -- looked up, not stored
+                form = cexpr(k.value)
+                ok = is_call(form, 'self.context.globals.get_value') and len(form.args) >= 2 and const_value(form.args[0]) == k.arg and \
+                    unparse(form.args[1]) == 'conf' and const_value(keyword(form, 'global_key', 2)) == 'image.' + k.arg
+                ctx.check(ok, 'GridConfiguration.tile_grid:%s-grid-then-globals' % k.arg,
+                          '%s is the option of the grid, else image.%s of the globals of this configuration' % (k.arg, k.arg), ld, x,
+                          fail='tile_grid(%s=%s) is not globals.get_value(%r, conf, global_key=%r): the factor that selects the level is not the '
+                               'configured one' % (k.arg, unparse(form)[:60], k.arg, 'image.' + k.arg))
+    # the mapping of a built-in grid is shared by every configuration loaded in the process: a level-selection setting written into it
+    # would leak into the grids of the next configuration
+    written = []
+    for n in ld.walk():
+        if isinstance(n, ast.Subscript) and isinstance(n.ctx, (ast.Store, ast.Del)) and unparse(n.value) in ('conf', 'self.conf'):
+            written.append(const_value(n.slice))
+        if isinstance(n, ast.Call) and isinstance(n.func, ast.Attribute) and unparse(n.func.value) in ('conf', 'self.conf') and \
+                n.func.attr in ('setdefault', '__setitem__'):
+            written.append(const_value(n.args[0]) if n.args else n.func.attr)
+        if isinstance(n, ast.Call) and isinstance(n.func, ast.Attribute) and unparse(n.func.value) in ('conf', 'self.conf') and n.func.attr == 'update':
+            for a in n.args:
+                if isinstance(a, ast.Dict):
+                    written.extend(const_value(k) for k in a.keys if k is not None)
+            written.extend(k.arg for k in n.keywords if k.arg)
+    LEVEL_KEYS = ('stretch_factor', 'max_shrink_factor', 'threshold_res', 'res', 'res_factor', 'min_res', 'max_res', 'num_levels')
+    ok = not any(w in LEVEL_KEYS for w in written)
+    ctx.check(ok, 'GridConfiguration.tile_grid:conf-not-written', 'the (shared) grid mapping is only read for the level-selection settings (written keys: %s)' % written,
+              ld, fail='GridConfiguration.tile_grid writes %s into the grid mapping, which the built-in grids share between configurations: the '
+                       'stretch / shrink factor of the first configuration sticks to the grids of every later one' % [w for w in written if w in LEVEL_KEYS])
 
 
 @rule('C03.i', floor=4)
@@ -464,8 +492,10 @@ def c03i(ctx):
 @rule('C03.j', floor=4)
 def c03j(ctx):
     """shared rules, re-evaluated for this property: the public tile address is mapped to the grid level first and flipped in that
-    level's matrix, for exactly the combinations of request and grid origin that differ (C02.a, C02.b)"""
-    sub = run_property(ctx.repo, 'C02', ctx.tier, only={'C02.a', 'C02.b'})
+    level's matrix, for exactly the combinations of request and grid origin that differ (C02.a, C02.b); the level mapping itself is
+    the inverse of the one the advertised tile sets are numbered with (C02.d) -- with another level the flip uses the height of a
+    matrix that is not the one the client counts in"""
+    sub = run_property(ctx.repo, 'C02', ctx.tier, only={'C02.a', 'C02.b', 'C02.d'})
     for er in sub.errors:
         raise Undecided('shared rule %s: %s' % er)
     for o in sub.obs:
